@@ -250,6 +250,8 @@ def run(ctx, rep):
         for l in path:
             if l.kind == 'bool' and l.outcome is True and H.is_digits_test(prog, sl, l.value, pv):
                 return 'all(is_ascii_digit)'
+            if l.kind == 'bool' and l.outcome is False and H.is_nondigit_test(prog, sl, l.value, pv):
+                return '!any(!is_ascii_digit)'
             if l.kind == 'bool' and l.outcome is False and H.is_starts_with(l.value, pv, '+'):
                 return "!starts_with('+')"
         return None
